@@ -32,6 +32,7 @@ CONSTANTS
     HashedClasses,       \* KNOB: classes whose edits change the cache key
     EventsHashed,        \* KNOB: adding/removing events changes the cache key
     VizHashed,           \* KNOB: switching visualize_deps on/off changes the cache key
+    FlagOverwritesConfig,\* KNOB: an absent --force flag overwrites `force: true' of the configuration file
     NOrders,             \* number of distinguishable iteration orders (1 = nothing to permute)
     KeyDependsOnOrder,   \* KNOB: cache key computed over commands in discovery order
     OutputDependsOnOrder,\* KNOB: generated text depends on discovery / map order
@@ -132,6 +133,14 @@ LoseCache ==
     /\ cache' = Absent
     /\ UNCHANGED <<attrs, hasCmds, hasEvents, viz, out, probe, lost>>
 
+\* .typecache overwritten with something that is not a cache record of any generation
+CorruptKey == [h |-> [c \in HashedClasses |-> 7], ev |-> FALSE, vz |-> FALSE, o |-> 0]
+CorruptCache ==
+    /\ cache.p /\ cache.key # CorruptKey
+    /\ EnvStep(<<"corrupt", "cache">>)
+    /\ cache' = [p |-> TRUE, key |-> CorruptKey, ex |-> {}, g |-> 0]
+    /\ UNCHANGED <<attrs, hasCmds, hasEvents, viz, out, probe, lost>>
+
 PlaceForeignProbe ==
     /\ probe = "absent"
     /\ EnvStep(<<"place", "probe">>)
@@ -141,7 +150,7 @@ PlaceForeignProbe ==
 Env == \/ \E c \in Classes : Edit(c)
        \/ ToggleEvents \/ ToggleCommands \/ ToggleViz
        \/ \E f \in Bindings : LoseFile(f)
-       \/ LoseCache \/ PlaceForeignProbe
+       \/ LoseCache \/ CorruptCache \/ PlaceForeignProbe
 
 -----------------------------------------------------------------------------
 (* A run (tool steps)                                                       *)
@@ -154,15 +163,20 @@ Faults == {NoFault} \cup {[kind |-> k, at |-> f] : k \in {"failopen", "failwrite
 
 Ended(r, status, skipped) == [r EXCEPT !.pc = "ended", !.status = status, !.skipped = skipped]
 
-StartRun(d, forced, fault) ==
+\* flag: --force given on the command line (CLI only); cfg: `force: true' in the configuration.
+\* run.forced is what the code ACTS on; run.wantForced is what the property demands.
+StartRun(d, flag, cfg, fault) ==
     /\ run.pc = "idle" /\ gen < MaxRuns
     /\ (fault # NoFault => nfaults < MaxFaults)
+    /\ (d = "build" => ~flag)
     /\ gen' = gen + 1
-    /\ run' = [pc |-> "loaded", driver |-> d, forced |-> forced, ord |-> 1, i |-> 1,
+    /\ run' = [pc |-> "loaded", driver |-> d,
+               forced |-> IF FlagOverwritesConfig /\ d = "cli" THEN flag ELSE flag \/ cfg,
+               wantForced |-> flag \/ cfg, flag |-> flag, cfg |-> cfg, ord |-> 1, i |-> 1,
                fault |-> fault, wrote |-> {}, failed |-> FALSE, wasClean |-> clean,
                status |-> "running", skipped |-> FALSE]
     /\ nfaults' = IF fault = NoFault THEN nfaults ELSE nfaults + 1
-    /\ hist' = Append(hist, <<"run", d, forced, fault.kind, fault.at>>)
+    /\ hist' = Append(hist, <<"run", d, flag, cfg, fault.kind, fault.at>>)
     /\ UNCHANGED <<attrs, hasCmds, hasEvents, viz, out, cache, probe, nenv, lost, clean>>
 
 \* WalkAndParse + Extract: the HashMap iteration order is chosen here
@@ -279,7 +293,7 @@ Exit ==
     /\ UNCHANGED <<attrs, hasCmds, hasEvents, viz, out, cache, probe, gen, nenv, nfaults, lost, hist>>
 
 Tool ==
-    \/ \E d \in Drivers, forced \in BOOLEAN, ft \in Faults : StartRun(d, forced, ft)
+    \/ \E d \in Drivers, flag \in BOOLEAN, cfg \in BOOLEAN, ft \in Faults : StartRun(d, flag, cfg, ft)
     \/ \E o \in Orders : Analyse(o)
     \/ NoCommands \/ Skip \/ Proceed \/ WriteFile \/ AfterWrites \/ SaveCache
     \/ ProbeCreate \/ ProbeRemove \/ Finalise \/ Exit
@@ -307,11 +321,11 @@ RunEndedOk == run.pc = "ended" /\ run.status = "ok"
 \* C08: a non-forced run that reports success (incl. "up to date") leaves every file a forced
 \* generation would write present and current
 C08_SuccessMeansCurrent ==
-    (RunEndedOk /\ ~run.forced) => \A f \in Expected : Current(f)
+    (RunEndedOk /\ ~run.wantForced) => \A f \in Expected : Current(f)
 
 \* C14 (second sentence): --force always regenerates
 C14_ForceRegenerates ==
-    (RunEndedOk /\ run.forced /\ hasCmds)
+    (RunEndedOk /\ run.wantForced /\ hasCmds)
         => /\ \A f \in Expected : Current(f)
            /\ Expected \subseteq run.wrote
 
@@ -321,7 +335,7 @@ C13_OrderIndependent == \A f \in Bindings : out[f].p => out[f].o = 1
 \* C14 (first sentence): a non-forced run on an unchanged, successfully generated project
 \* touches nothing in the output directory
 C14_NoChangeNoWrite ==
-    [][ (run.pc # "idle" /\ run.wasClean /\ ~run.forced)
+    [][ (run.pc # "idle" /\ run.wasClean /\ ~run.wantForced)
             => (out' = out /\ cache' = cache /\ probe' = probe) ]_vars
 
 \* C16: .write_test is not one of the tool's reserved names: never created, a foreign one never touched
